@@ -15,7 +15,44 @@ pub fn run(tier: Tier, seed: u64) {
     crate::for_each_n!(tier, unit, seed);
 }
 
+/// one proof object verified repeatedly: the verdict is a function of (proof, parameters, challenge) only
+fn reverify<const N: usize>(seed: u64) {
+    sx::begin(vec![], DrawMode::NonDegenerate, seed);
+    let mut rng = SeedRng::new(seed);
+    let kp = KeyPair::<N>::new(&mut rng);
+    let kp2 = KeyPair::<N>::new(&mut rng);
+    let m: [Scalar; N] = sym_scalars("m");
+    let sig = Message::new(m).sign(&mut rng, &kp);
+    let b = SignatureProofBuilder::<N>::generate_proof_commitments(&mut rng, Message::new(m), sig, &[None; N], kp.public_key());
+    let c = ChallengeBuilder::new().with(&b).finish();
+    let sp = b.generate_proof_response(c);
+    let params = PedersenParameters::<G1Projective, N>::new(&mut rng);
+    let params2 = PedersenParameters::<G1Projective, N>::new(&mut rng);
+    let cb = CommitmentProofBuilder::<G1Projective, N>::generate_proof_commitments(&mut rng, Message::new(m), &[None; N], &params);
+    let cc = ChallengeBuilder::new().with(&cb).finish();
+    let cp = cb.generate_proof_response(cc);
+    let other = sym_challenge("other");
+    let r = [
+        sp.verify_knowledge_of_signature(kp.public_key(), c),
+        sp.verify_knowledge_of_signature(kp.public_key(), other),
+        sp.verify_knowledge_of_signature(kp2.public_key(), c),
+        sp.verify_knowledge_of_signature(kp.public_key(), c),
+        cp.verify_knowledge_of_opening(&params, cc),
+        cp.verify_knowledge_of_opening(&params, other),
+        cp.verify_knowledge_of_opening(&params2, cc),
+        cp.verify_knowledge_of_opening(&params, cc),
+    ];
+    if r != [true, false, false, true, true, false, false, true] {
+        eng::finding("C11 verdict-depends-on-history", &format!("N={}: repeated verification of one proof object gives {:?}, expected [t,f,f,t,t,f,f,t]", N, r), None, json!({"kind":"model"}));
+    }
+    if !matches!(eng::witness(&format!("C11 N={}: repeated verification of one object is judged afresh (witness)", N), &eng::hyps(), &F::True), Tri::Yes) {
+        eng::inconclusive("C11 reverify: no confirmed witness");
+    }
+    eng::path_done();
+}
+
 fn unit<const N: usize>(seed: u64) {
+    reverify::<N>(seed);
     commitment_proof::<G1Projective, N>(seed);
     commitment_proof::<G2Projective, N>(seed);
     request_proof::<N>(seed);
